@@ -53,6 +53,7 @@ def step (line : String) : String :=
   | "pred" :: rest => runPred (parseKV rest)
   | "detqr" :: rest => runDetQR (parseKV rest)
   | "hstep" :: rest => C16H.runHstep (parseKV rest)
+  | "hspec" :: rest => C16H.runHspec (parseKV rest)
   | "layout" :: rest => runLayout (parseKV rest)
   | "mapops" :: rest => runMapops (parseKV rest)
   | "qr" :: rest => runQR (parseKV rest)
